@@ -75,7 +75,8 @@ Definition leaf_coll (sp : attr_spec) (fam : family) : Prop :=
    transform used by CollectionAttrMutator.prepare *)
 Definition io_plainx (sp : attr_spec) (io : item_op) : Prop :=
   io_attrs io = None /\ io_attr_transforms io = [] /\
-  (io_transform io = None \/ exists inst, io_transform io = Some (XPrepItem, Some (sp, inst))).
+  (io_transform io = None \/ (exists inst, io_transform io = Some (XPrepItem, Some (sp, inst))) \/
+   exists f, io_transform io = Some (XFn f, None) /\ qfn f).
 
 Lemma io_plain_x sp io : io_plain io -> io_plainx sp io.
 Proof. intros (H1 & H2 & H3). split; auto. Qed.
@@ -241,7 +242,7 @@ Section Colls.
     assert (Se : scalar_ty (item_type (a_ty sp)) = true).
     { destruct (a_ty sp); simpl in *; try discriminate; auto. apply andb_true_iff in Sc. tauto. }
     split; [split; auto|]. split; auto. split.
-    { destruct H2 as [->|[inst' ->]]; simpl; auto. }
+    { destruct H2 as [->|[[inst' ->]|[f [-> Hq]]]]; simpl; auto. }
     split; auto.
     exists (item_type (a_ty sp)), (item_type (a_ty sp)). unfold ctor_of_ty.
     destruct (scalar_nospec _ Se) as [-> _]. split; auto. split; auto.
@@ -364,7 +365,7 @@ Section Colls.
   Proof.
     intros Hl SF.
     assert (PlainT : forall voi bi, io_plainx sp (io_transform_item sp inst voi bi)).
-    { intros voi bi. split; [reflexivity|]. split; [reflexivity|]. right. exists inst. reflexivity. }
+    { intros voi bi. split; [reflexivity|]. split; [reflexivity|]. right. left. exists inst. reflexivity. }
     unfold prepare_items. destruct fam.
     - eapply T_bind with (Q := fun _ h => IF F h /\ loose h (VRef fc) /\ conf h (VRef fc) sp);
         [apply T_hpure; [apply hpure_read_list|tauto]|].
@@ -465,7 +466,7 @@ Section Colls.
           * eapply attr_mv_plain'; eauto.
         + intros h [[I Fh] L]. split; auto.
         + intros r h [[Iv [Fh L]] R]. split; [split; auto|].
-          destruct R as [->|[->|R]]; [exact I|exact L|exact R].
+          destruct R as [[-> _]|[->|R]]; [exact I|exact L|exact R].
         + intros h [I [Fh _]]. split; auto.
       - intros v'.
         assert (Ec : ty_is_collection (a_ty sp) = true)
